@@ -242,8 +242,10 @@ def run_bounded(ctx, shape, dtype, per_element, name="x"):
             A = real_specs.BoundedArray(shape, dt, concrete(m, lo), concrete(m, hi), name)
             B = mk_other(m) if mk_other else A.replace()
             o = native(lambda: A == B)
-            return {"inputs": {"a": repr(A), "b": repr(B)}, "native_outcome": outcome_kind(o) if o[0] == "exc" else repr(o[1]),
-                    "confirmed": o[0] == "exc" or not isinstance(o[1], (bool, np.bool_))}
+            same_attrs = (A.shape == B.shape and A.dtype == B.dtype and A.name == B.name and np.array_equal(np.broadcast_to(A.minimum, A.shape), np.broadcast_to(B.minimum, B.shape))
+                          and np.array_equal(np.broadcast_to(A.maximum, A.shape), np.broadcast_to(B.maximum, B.shape)))
+            return {"inputs": {"a": repr(A), "b": repr(B)}, "native_outcome": outcome_kind(o) if o[0] == "exc" else repr(o[1]), "attributes_equal": bool(same_attrs),
+                    "confirmed": o[0] == "exc" or not isinstance(o[1], (bool, np.bool_)) or bool(o[1]) != bool(same_attrs)}
         epaths = P.explore(lambda: a.replace() == a)
         R.total("replace().eq_self.total_never_raises", epaths, (), replay=rp_eq)
         R.ob("replace().eq_self.is_True", ret_cond(epaths, lambda r: P.truth(r)), replay=rp_eq)
